@@ -1,3 +1,4 @@
+import os
 from vf.core import Property, Harness, Unit
 
 MUX = Unit('l2cap_mux', description='details::l2cap<link layer stub, connection data, 3 recording channels> for two channel sets: '
@@ -6,23 +7,32 @@ MUX = Unit('l2cap_mux', description='details::l2cap<link layer stub, connection 
 SIG = Unit('l2cap_sig', description='l2cap::signaling_channel<> with raw state access')
 
 
+_DIFF = int(os.environ.get('C31_DIFF', '300'))     # debugging aid: fewer differential iterations on an overloaded machine
+
+
+def _flt(cs):
+    # debugging aid: C31_FILTER="c['MODE']==0 and c['N']==8" restricts the cases that are run (never set in a regular run)
+    f = os.environ.get('C31_FILTER')
+    return [c for c in cs if eval(f, {'c': c})] if f else cs
+
+
 def mux_cases(tier):
     cs = []
     q = tier == 'quick'
     nmax = 31 if q else 36
     for cfg in (0, 1):
-        # quick: every size for the first channel set; for the second the sizes around the header and a few larger ones
-        sizes = range(0, nmax + 1) if (cfg == 0 or not q) else (0, 3, 4, 5, 6, 12, 31)
+        # quick: for the first channel set every size around the header and a spread of larger ones, for the second a few; thorough: all
+        sizes = range(0, nmax + 1) if not q else (0, 1, 2, 3, 4, 5, 6, 7, 8, 12, 16, 23, 27, 31) if cfg == 0 else (3, 4, 5, 12, 31)
         for n in sizes:
             cs.append({'CFG': cfg, 'MODE': 0, 'N': n, 'EXTRA': 0, 'NBUF': 1})
-        for n in (((4, 31) if cfg == 0 else ()) if q else range(0, nmax + 1)):
+        for n in (((4, 31) if cfg == 0 else ()) if q else (0, 3, 4, 5, 6, 12, 31, 36)):
             cs.append({'CFG': cfg, 'MODE': 0, 'N': n, 'EXTRA': 3, 'NBUF': 1})
         for extra in ((0,) if q and cfg == 1 else (0, 3)):
             cs.append({'CFG': cfg, 'MODE': 1, 'N': 0, 'EXTRA': extra, 'NBUF': 1})
-        for nbuf in ((2,) if q and cfg == 1 else range(0, 5)):
+        for nbuf in ((2,) if q and cfg == 1 else range(0, 4) if q else range(0, 5)):
             it = min(nbuf, 3) + 2       # the poll loop runs once per transmitted frame (<= 3 channels, <= NBUF buffers) plus a last, empty round
             cs.append({'CFG': cfg, 'MODE': 2, 'N': 0, 'EXTRA': 0, 'NBUF': nbuf, '_unwindset': 'vf_mux_poll_all.0:%d,vf_mux_poll_all.1:%d' % (it, it)})
-    return cs
+    return _flt(cs)
 
 
 def sig_cases(tier):
@@ -33,40 +43,39 @@ def sig_cases(tier):
     for cap in ((23,) if q else (12, 23, 65)):
         cs.append(dict(base, OP=1, OUTCAP=cap))
     # CLS 4 = command code fully symbolic (covers CLS 0..3 in one query); the thorough tier also runs the split by code
-    nmax = 12 if q else 16
-    for n in range(0, nmax + 1):
+    for n in ((0, 1, 2, 3, 4, 5, 6, 7, 8, 12) if q else range(0, 17)):
         cs.append(dict(base, OP=2, CLS=4, N=n))
-        if not q and n >= 1:
+        if not q and 1 <= n <= 12:
             for cls in range(4):
                 cs.append(dict(base, OP=2, CLS=cls, N=n))
     for k, ns in ((4, (6,)),) if q else ((4, (1, 2, 6, 8)), (5, (6,))):
         for n in ns:
             cs.append(dict(base, MODE=1, K=k, N=n))
-    return cs
+    return _flt(cs)
 
 
 PROPERTY = Property(
     'C31',
-    [Harness('c31_mux', MUX, 'harness/c31_mux.c', mux_cases, unwind=40, timeout=300,
+    [Harness('c31_mux', MUX, 'harness/c31_mux.c', mux_cases, unwind=40, timeout=300, diff_iters=_DIFF,
              description='real L2CAP multiplexer: one symbolic incoming frame per size (delivery, payload, reply framing, drop), '
                          'single poll and poll loop for pending channel output',
-             bounds='two channel sets of three channels; incoming frame sizes 0..31 (quick) / 0..36 (thorough), every byte symbolic; '
+             bounds='two channel sets of three channels; incoming frame sizes 0..8, 12, 16, 23, 27, 31 (quick; second channel set 3, 4, 5, 12, 31) / every size 0..36 (thorough), every byte symbolic; '
                     'reply / pending output of symbolic size 0..36 clipped to what the channel is offered, symbolic bytes; link layer '
                     'buffer of exactly maximum MTU + 4 (+3) bytes or none; poll loop with 0..4 buffers and any subset of channels pending'),
-     Harness('c31_sig', SIG, 'harness/c31_sig.c', sig_cases, unwind=26, timeout=300,
+     Harness('c31_sig', SIG, 'harness/c31_sig.c', sig_cases, unwind=26, timeout=300, diff_iters=_DIFF,
              description='real signaling channel: inductive step from every state satisfying the invariant with one operation, and '
                          'histories from construction against a black box model',
              bounds='step: every state (idle/queued/transmitted, identifier 1..255, any parameters) x {request with any parameters, '
-                    'output poll into 23 (12, 65) bytes, incoming command of 0..12 (quick) / 0..16 (thorough) bytes with code 0x01, 0x12, '
-                    '0x13 or any other, all other bytes symbolic}; histories: 4 (thorough also 5) symbolic operations from construction '
+                    'output poll into 23 (12, 65) bytes, incoming command of 0..8, 12 (quick) / 0..16 (thorough) bytes with symbolic code (thorough in addition split by code 0x01, 0x12, '
+                    '0x13, other for 1..12 bytes), all other bytes symbolic}; histories: 4 (thorough also 5) symbolic operations from construction '
                     'with commands of 6 (thorough also 1, 2, 8) symbolic bytes')],
     functions=['details::l2cap<LinkLayer,ChannelData,Channels...>::handle_l2cap_input', 'details::l2cap<...>::transmit_single_pending_l2cap_output',
                'details::l2cap<...>::transmit_pending_l2cap_output', 'details::l2cap<...>::l2cap_input_handler::each', 'details::l2cap<...>::l2cap_output_handler::each',
                'details::l2cap<...>::minimum_mtu_size / maximum_mtu_size', 'details::read_16bit / write_16bit',
                'l2cap::signaling_channel<>::l2cap_input', 'l2cap::signaling_channel<>::l2cap_output', 'l2cap::signaling_channel<>::reject_command',
                'l2cap::signaling_channel<>::connection_parameter_update_request', 'l2cap::signaling_channel<>::signaling_channel'],
-    bounds='multiplexer: 2 channel sets x frame sizes 0..31/36 x all contents; signaling channel: single step from all states satisfying the '
-           'invariant (covers histories of any length by induction) for commands up to 12/16 bytes, plus histories of 4/5 operations',
+    bounds='multiplexer: 2 channel sets x frame sizes up to 31 (quick: 14 + 5 sizes) / every size 0..36 (thorough) x all contents; signaling channel: single step from all '
+           'states satisfying the invariant (covers histories of any length by induction) for commands up to 12 (quick) / 16 (thorough) bytes, plus histories of 4/5 operations',
     assumptions=['link layer stub contract: allocate_l2cap_output_buffer( n ) returns { 0, nullptr } or a buffer of n + 4 (+3) bytes, i.e. n is the '
                  'payload size without L2CAP header (this is what link_layer<>::allocate_l2cap_output_buffer does); a buffer stays available until it is committed',
                  'channel stub contract: l2cap_input / l2cap_output write at most the number of bytes they are offered and report that size; '
